@@ -10,9 +10,9 @@ import json
 
 import common
 from common import run_cmds, run_tlc_many, stable_id
-from render import obj_chain
+from render import obj_chain, obj_chain_shared
 
-FAMS = ["vis", "plus", "refs", "omit", "assert"]
+FAMS = ["vis", "plus", "refs", "omit", "assert", "locals"]
 NAMES = ["a", "b"]
 
 
@@ -37,9 +37,15 @@ def run(chk):
     for f, r in zip(FAMS, rs):
         chk.add_tlc(r, f"Objects[{f}]: implementation-shaped lookups refine the declarative model; consistency")
         rep = r.replay
-        cap = 100000 if thorough else {"vis": 1800, "plus": 1463, "refs": 2500, "omit": 2200, "assert": 1200}[f]
+        cap = 100000 if thorough else {"vis": 1800, "plus": 1463, "refs": 2500, "omit": 2200, "assert": 1200, "locals": 2200}[f]
         if len(rep) > cap:
             rng.shuffle(rep)
+            if f == "locals":
+                # first the chains in which one layer value with an object-level local occurs at two positions
+                def reused(c):
+                    ls = [json.dumps(l, sort_keys=True) for l in c["chain"] if not l["omit"] and any(m["p"] and m["b"]["k"] == "local" for m in l["ms"].values())]
+                    return len(ls) != len(set(ls))
+                rep.sort(key=lambda c: not reused(c))
             rep = rep[:cap]
         cases.extend(rep)
     chk.extra["chains_enumerated"] = sum(len(r.replay) for r in rs)
@@ -81,6 +87,12 @@ def run(chk):
                 if vis:
                     seq = [vis[-1]] + vis + [vis[0]]
                     add(ci, "reads", pre + "[" + ", ".join(f"o.{f}" for f in seq) + "]", seq)
+            # the same layer value at several positions of the chain (a mixin applied twice)
+            S = obj_chain_shared(ch)
+            if S:
+                for f in NAMES:
+                    add(ci, "get", f"local o = {S}; o.{f}", ("shared", f))
+                add(ci, "manifest", f"local o = {S}; o", "shared")
             add(ci, "api", O, None, cmd="demand", extra={"demands": [{"f": "a"}, {"f": "b"}, {"f": "a"}, {"f": "zz"}]})
             # super reads from every (ordinary) layer
             P = obj_chain(ch, 0, probes=True)
